@@ -105,7 +105,17 @@ fn gen_scalar(rng: &mut Rng) -> (i64, &'static str) {
 
 fn gen_f64(rng: &mut Rng) -> f64 {
     let two31 = 2147483648.0f64;
-    match rng.below(26) {
+    match rng.below(30) {
+        // the fraction x - floor(x) rounds to exactly 1.0 (tiny negatives); half a unit; one unit
+        26 => if rng.chance(1, 2) { -1e-17 } else { 1e-17 },
+        27 => [-1.1102230246251565e-16, -1e-16, -2.220446049250313e-16, 1e-16][rng.below(4) as usize],
+        28 => [1.1641532182693481e-10, -1.1641532182693481e-10, 2.3283064365386963e-10, -2.3283064365386963e-10][rng.below(4) as usize],
+        29 => {
+            // next below / above an integer
+            let k = rng.range(-4, 4) as f64;
+            let d: i64 = if rng.chance(1, 2) { 1 } else { -1 };
+            if k == 0.0 { k } else { f64::from_bits((k.to_bits() as i64 + d) as u64) }
+        }
         0 => 0.0,
         1 => -0.0,
         2 => two31,
